@@ -191,7 +191,7 @@ def exception_hierarchy(repo=None):
         "OSError": ["Exception"], "AttributeError": ["Exception"], "NotImplementedError": ["RuntimeError"],
         "StopIteration": ["Exception"], "StopAsyncIteration": ["Exception"],
         "CancelledError": ["BaseException"], "TimeoutError": ["OSError"], "InvalidStateError": ["Exception"],
-        "IncompleteReadError": ["Exception"], "SystemError": ["Exception"], "MemoryError": ["Exception"],
+        "EOFError": ["Exception"], "IncompleteReadError": ["EOFError"], "SystemError": ["Exception"], "MemoryError": ["Exception"],
         "OverflowError": ["ArithmeticError"], "ArithmeticError": ["Exception"],
         "ZeroDivisionError": ["ArithmeticError"], "struct.error": ["Exception"],
         "UnicodeDecodeError": ["ValueError"], "ConnectionError": ["OSError"],
